@@ -97,7 +97,12 @@ func (p *P) Enumerate(fh string, plus bool, budget int, maxPages int) {
 	}
 }
 
-func (p *P) Dump() { p.T.Emit(DumpAPI(p.S.API, "run")) }
+func (p *P) Dump() {
+	// a READ of a hole maps a block: on a nearly full disk the dump's own reads may come back short (see srv.go)
+	DumpTolerantShort = func() bool { fb, _ := p.S.Free(); return fb < 64 }
+	p.T.Emit(DumpAPI(p.S.API, "run"))
+	DumpTolerantShort = nil
+}
 
 func (p *P) Restart() bool {
 	p.S.WaitIdle()
@@ -110,7 +115,9 @@ func (p *P) Restart() bool {
 	s.Sequential = true
 	s.wtmax, s.maxfs = p.S.wtmax, p.S.maxfs
 	p.S = s
+	DumpTolerantShort = func() bool { fb, _ := s.Free(); return fb < 64 }
 	p.T.Emit(Restart{Ev: "restart", Kind: "clean", Dump: DumpAPI(s.API, "restarted")})
+	DumpTolerantShort = nil
 	return true
 }
 
@@ -590,6 +597,55 @@ func init() {
 		p.Enumerate(d, false, 4096, 5)
 		p.Tail()
 	}})
+	// An operation that allocates an index block and then fails for lack of a second block must give the first one
+	// back everywhere (allocator, cached inode); the number must not stay in the cached inode and reach the disk later.
+	for _, variant := range []string{"write", "read"} {
+		variant := variant
+		Probes = append(Probes, Probe{"indirect-" + variant + "-with-one-block-free", []string{"C04", "C05", "C09", "C10"}, 1700, func(p *P) {
+			g := p.Create(p.Root, "g").RFh // no indirect block yet
+			p.Write(g, 0, 100, 2)
+			if variant == "read" {
+				p.Trunc(g, 20*4096) // sparse: reading a hole maps a block
+			}
+			filler := p.Create(p.Root, "filler").RFh
+			off := 0
+			for i := 0; i < 400; i++ {
+				fb, _ := p.S.Free()
+				if fb <= 1 {
+					break
+				}
+				p.Write(filler, off, 4096, 2)
+				off += 4096
+			}
+			fb, _ := p.S.Free()
+			if fb != 1 {
+				return
+			}
+			if variant == "read" {
+				p.Read(g, 8*4096, 100)
+			} else {
+				p.Write(g, 8*4096, 100, 2) // needs the index block and a data block: fails
+			}
+			p.S.WaitIdle()
+			p.T.Emit(TakeSnap(p.S, "run", true))
+			p.Trunc(filler, off-6*4096) // room again
+			p.S.WaitIdle()
+			p.T.Emit(TakeSnap(p.S, "run", true))
+			p.Write(g, 9*4096, 100, 2)
+			p.Getattr(g)
+			p.S.WaitIdle()
+			p.T.Emit(TakeSnap(p.S, "run", true))
+			h := p.Create(p.Root, "h").RFh
+			p.Write(h, 0, 3*4096, 2)
+			p.Read(g, 8*4096, 8192)
+			p.Read(h, 0, 3*4096)
+			p.S.WaitIdle()
+			p.T.Emit(TakeSnap(p.S, "run", true))
+			p.Dump()
+			p.Restart()
+			p.Tail()
+		}})
+	}
 	// systematic shrink/grow matrix around the block-map boundaries (direct 0..7, indirect 8..519, double 520..)
 	const B = 4096
 	Probes = append(Probes, Probe{"shrink-grow-matrix", []string{"C12", "C02", "C05"}, 16000, func(p *P) {
